@@ -18,17 +18,20 @@ class C15(Prop):
                   "fixed directories are used verbatim; after the registration loop of ScheduleStep._schedule every "
                   "directory is available in the C21 registry model on every allocated location, from any registry "
                   "state, and stays so; mkdir -p on an abstract file system makes the directory and its ancestors "
-                  "exist. The real ScheduleStep is run (local deployment, 1..12 concurrent jobs of one step, with and "
-                  "without fixed directories) and its JobTokens, the real file system and get_data_locations are "
-                  "compared with the model and judged by an oracle written from the property text.")
-    LEVEL_NOTE = ("Partial: the file system is an abstract set in the model (real mkdir only exercised, on the local "
-                  "location); shell-based remote locations, symbolic-link work directories and controlled task "
+                  "exist. The real ScheduleStep is run (local deployment, and a shell-backed remote deployment of 2..3 "
+                  "nodes with separate directories reached through /bin/sh and jobs allocated on 1 or 2 nodes; 1..10 "
+                  "concurrent jobs of one step, with and without fixed directories) and its JobTokens, the real file "
+                  "system of every allocated node and get_data_locations per node are compared with the model and "
+                  "judged by an oracle written from the property text.")
+    LEVEL_NOTE = ("Partial: the file system is an abstract set in the model (real mkdir only exercised: local location and "
+                  "shell-backed nodes); symbolic-link work directories, wrapped locations and controlled task "
                   "interleavings are not covered by the correspondence; uuid4 uniqueness is an assumption. No axioms.")
     TECHNIQUE = "Coq proof over a hand-written model (on top of the C21 registry model) + vm_compute correspondence"
-    RULE = ("a ScheduleStep on the local deployment receives n in 1..12 (thorough: ..40) tokens with distinct tags, so "
-            "that n jobs are scheduled concurrently; each of input/output/tmp directory is either left to the step or "
-            "fixed (possibly with a blank in its name, possibly nested). Non-trivial = at least 2 jobs. Distinct = "
-            "distinct canonical JSON.")
+    RULE = ("a ScheduleStep receives n in 1..10 (thorough: ..40) tokens with distinct tags, so that n jobs are scheduled "
+            "concurrently, alternately on the local deployment and on a shell-backed remote deployment of 2..3 nodes "
+            "with 1 or 2 locations per job; each of input/output/tmp directory is either left to the step or fixed "
+            "(possibly with a blank in its name, possibly nested, possibly shared between roles). Non-trivial = at "
+            "least 2 jobs. Distinct = distinct canonical JSON.")
     TRUSTED = ("model: JobDirs/Model.v and DataReg/Model.v are hand-written; os.path.join, pathlib mkdir/resolve, "
                "uuid4 and the local connector are not verified, only exercised",)
     ASSUMPTIONS = ("utils.random_name() never returns the same name twice (uuid4)",
@@ -97,7 +100,7 @@ class C15(Prop):
 
             async def get_available_locations(self, service=None):
                 return {f"n{k + 1}": AvailableLocation(name=f"n{k + 1}", deployment=self.deployment_name,
-                                                       service=service, hostname="localhost", local=False)
+                                                       service=service, hostname="localhost", local=False, slots=1000)
                         for k in range(self.nodes)}
 
             async def run(self, location, command, environment=None, workdir=None, stdin=None,
